@@ -867,6 +867,24 @@ impl<'a, 'b> FnCtx<'a, 'b> {
                 }
             }
             self.dead_code(rng, d);
+        } else if choice < 84 && self.c.cfg.bulk && self.c.cfg.instantiable && rng.chance(1, 3) && (0..self.c.mems.len()).filter(|&i| !self.c.mems[i].is64 && self.c.mems[i].min > 0).count() >= 2 {
+            // a copy between two *different* 32-bit memories that lands in bounds: write a marker into
+            // the source, copy it over, read it back from the destination
+            let ms: Vec<u32> = (0..self.c.mems.len() as u32).filter(|&i| !self.c.mems[i as usize].is64 && self.c.mems[i as usize].min > 0).collect();
+            let src = *rng.pick(&ms);
+            let dsts: Vec<u32> = ms.iter().copied().filter(|x| *x != src).collect();
+            let dst = *rng.pick(&dsts);
+            let (sa, da) = (rng.below(200) as i32, 256 + rng.below(200) as i32);
+            self.emit(I::I32Const(sa));
+            self.emit(I::I32Const(0x5a00 + rng.below(250) as i32));
+            self.emit(I::I32Store(MemArg { offset: 0, align: 0, memory_index: src }));
+            self.emit(I::I32Const(da));
+            self.emit(I::I32Const(sa));
+            self.emit(I::I32Const(4));
+            self.emit(I::MemoryCopy { src_mem: src, dst_mem: dst });
+            self.emit(I::I32Const(da));
+            self.emit(I::I32Load(MemArg { offset: 0, align: 0, memory_index: dst }));
+            self.emit(I::Drop);
         } else if choice < 84 && self.c.cfg.bulk && !self.c.mems.is_empty() {
             let m = rng.below(self.c.mems.len() as u64) as u32;
             match rng.below(3) {
